@@ -19,8 +19,10 @@ pub enum Status {
 pub enum Adv {
     /// stop sending anything, forever
     Silent,
-    /// send ERROR(code) and stop
+    /// send ERROR(code) and stop; the flag picks a plain message, else a variant by code parity (see `error_text`)
     Error(u16, bool),
+    /// send ERROR(code) with message variant k (long / non-ASCII texts) and stop
+    ErrorText(u16, u8),
     /// an extra ACK: duplicate of the last one sent
     AckDup,
     /// an extra ACK for `back` blocks before the last cumulatively acknowledged one
@@ -81,6 +83,19 @@ pub struct Negotiated {
     pub blksize: usize,
     pub windowsize: u64,
     pub oack_bad: Option<String>,
+}
+
+/// Error texts a real peer may send: empty, short, long ASCII, long with multi-byte characters at
+/// every alignment.
+pub fn error_text(k: u8) -> String {
+    match k % 6 {
+        0 => String::new(),
+        1 => "scripted abort".to_string(),
+        2 => "x".repeat(200),
+        3 => format!("{}{}", "a".repeat(63), "\u{e9}".repeat(40)),
+        4 => format!("{}{}", "a".repeat(62), "\u{20ac}".repeat(30)),
+        _ => "\u{fc}berlauf: ".to_string() + &"\u{1f4a5}".repeat(25),
+    }
 }
 
 fn adopt(cfg: &XferCfg, oack: &[(String, String)]) -> Negotiated {
@@ -218,6 +233,14 @@ impl Reader {
                     cx.adversarial("peer-error");
                     let msg = if with_msg { "scripted abort".to_string() } else { String::new() };
                     cx.send(to, &rfc::encode(&Pkt::Error { code, msg }));
+                    self.silent = true;
+                    self.gen += 1;
+                    self.status = Status::Failed(format!("scripted ERROR {code}"));
+                    return true;
+                }
+                Adv::ErrorText(code, k) => {
+                    cx.adversarial("peer-error");
+                    cx.send(to, &rfc::encode(&Pkt::Error { code, msg: error_text(k) }));
                     self.silent = true;
                     self.gen += 1;
                     self.status = Status::Failed(format!("scripted ERROR {code}"));
@@ -541,6 +564,14 @@ impl Writer {
                     cx.adversarial("peer-error");
                     let msg = if with_msg { "scripted abort".to_string() } else { String::new() };
                     cx.send(to, &rfc::encode(&Pkt::Error { code, msg }));
+                    self.silent = true;
+                    self.gen += 1;
+                    self.status = Status::Failed(format!("scripted ERROR {code}"));
+                    return true;
+                }
+                Adv::ErrorText(code, k) => {
+                    cx.adversarial("peer-error");
+                    cx.send(to, &rfc::encode(&Pkt::Error { code, msg: error_text(k) }));
                     self.silent = true;
                     self.gen += 1;
                     self.status = Status::Failed(format!("scripted ERROR {code}"));
